@@ -269,7 +269,7 @@ def gen_request_dispatchers():
         if fr == "TCP":
             cl.append("ensures[C09,C18] err == nil ==> hdrWF(data)")
             cl.append("ensures[C10,C16,C18] err != nil ==> dyntype(err) == *ErrorParseTCP && err.(*ErrorParseTCP) != nil")
-            cl.append(f"ensures[C16,C18] err != nil && hdrWF(data) && len(data) >= 8 && ({fcs}) ==> errAddressed(err.(*ErrorParseTCP).Packet, data, data[7]) && (err.(*ErrorParseTCP).Packet.Code == 1 || err.(*ErrorParseTCP).Packet.Code == 3)")
+            cl.append(f"ensures[C16,C18] err != nil && hdrWF(data) && len(data) >= 8 && ({fcs}) ==> errAddressed(err.(*ErrorParseTCP).Packet, data, data[7]) && err.(*ErrorParseTCP).Packet.Code == 3")
         block(f"{disp}(data []byte) (res {rtype}, err error)", cl)
 
 SPEC = r'''# ADU layouts (MODBUS Application Protocol V1.1b3, section 6; MODBUS Messaging on TCP/IP V1.0b section 3.1.3;
@@ -285,6 +285,8 @@ fun pduFC23(d []byte, o int, uid uint8, ra uint16, rq uint16, wa uint16, wq uint
 # RTU framing: the last two bytes are the CRC-16 of everything before them, low byte first
 fun crcTrailer(d []byte, n int) bool = n >= 2 && d[n-2] == lo8(crc16(d, n-2)) && d[n-1] == hi8(crc16(d, n-2))
 # exception replies are addressed to the request they answer
+fun isException(r []byte) bool = len(r) == 9 && r[7] & 128 != 0
+fun exceptionFor(r []byte, q []byte) bool = len(r) == 9 && r[0] == q[0] && r[1] == q[1] && r[2] == 0 && r[3] == 0 && be16(r,4) == 3 && r[6] == q[6] && r[7] == q[7] | 128
 fun errAddressed(p ErrorResponseTCP, d []byte, fc uint8) bool = p.TransactionID == be16(d,0) && p.UnitID == d[6] && p.Function == fc
 '''
 
